@@ -1,7 +1,106 @@
-From Coq Require Import ZArith NArith List Bool.
-From CL Require Import Base.Sx Base.Res Base.Str Model.Channels.
-Import ListNotations.
+(* C15 — cross-channel merge keeps every string once, newest wins, order stable.
 
-Example C15_example_unsupported :
-  merge_channels (of_ascii [102; 46; 116; 120; 116]) [[]] = Raise NotSupported.
+   Entity level over Model/Channels.v (merge.py): a version is the list of entries
+   its walk() yields (kind, key / comment value, text); parsing itself is C01/C02.
+   [merge_entries vs] is merge_resources on the freshly walked versions (newest
+   first), [merge_channels name vs] the text merge_channels returns.
+   Hypothesis of the positive theorems: [ukeys v] — within one version no two keyed
+   entries (entities, sections, instructions, junk) share their key ("record pool").
+   Known finding outside it: an .ini section named like a key ([a] / a=1) collides
+   (C15_section_collision_refuted).
+
+   The re-parse clause of the property ("the result re-parses without junk") needs
+   the block theorems of C02 and is checked by the harness oracle on every case; it
+   is not stated here (see the manifest). *)
+From Coq Require Import ZArith NArith List Bool Arith.
+From CL Require Import Base.Sx Base.Res Base.Str Model.AddRemove Model.Channels
+                       Proofs.ChannelsProofs Proofs.ChannelsSpec.
+Import ListNotations.
+Local Open Scope nat_scope.
+
+(* the text is the concatenation of the entry texts of merge_resources *)
+Theorem C15_output : forall name vs txt, merge_channels name vs = Ok txt ->
+  exists out, merge_entries vs = Ok out /\ txt = concat (map c_text out).
+Proof. exact merge_channels_inv. Qed.
+
+(* every entity key of any version occurs exactly once in the result *)
+Theorem C15_keys_once : forall vs out, Forall ukeys vs -> merge_entries vs = Ok out ->
+  forall v e, In v vs -> In e v -> keyed e = true ->
+  length (filter (has_key (c_key e)) out) = 1.
+Proof. exact keys_once. Qed.
+
+(* its entry (kind, key, text, value) is that of the first (newest) version containing
+   the key; in particular nothing appears that is in no version *)
+Theorem C15_newest_wins : forall vs out, Forall ukeys vs -> merge_entries vs = Ok out ->
+  forall e, In e out -> keyed e = true ->
+  exists e0, first_entry (c_key e) vs = Some e0 /\ strip e0 = strip e.
+Proof. exact newest_wins. Qed.
+
+(* order: with D the merged dict (entries with their dict keys: DK key, DC comment
+   occurrence, DW whitespace identity), the keys that are no whitespace are the
+   iterated C20 specification [spec_keys] (each older-only key after the last key
+   before it in its own version that is already present, in front if none) of the
+   versions' keys, and the newest version's keys keep their order *)
+Theorem C15_order : forall v vs out, Forall ukeys (v :: vs) -> merge_entries (v :: vs) = Ok out ->
+  exists D, out = dvalues D /\ wf D /\
+    ekeys D = fold_left (fun a y => spec_keys dkey_eqb a y) (map vkeys vs) (vkeys v) /\
+    filter (fun k => AddRemove.mem dkey_eqb k (vkeys v)) (ekeys D) = vkeys v.
+Proof. exact merged_order. Qed.
+
+(* the keys of the keyed output entries are the DK keys of that list *)
+Theorem C15_order_entities : forall D, wf D ->
+  map c_key (filter keyed (dvalues D)) = dk_strs (dkeys D).
+Proof. intros D H. apply wf_keyed_keys. apply H. Qed.
+
+(* a single version comes back text-identical *)
+Theorem C15_single : forall name p v, get_parser name = Ok (Some p) -> ukeys v ->
+  merge_channels name [v] = Ok (concat (map c_text v)).
+Proof. exact merge_single. Qed.
+
+(* no parser for the name: refused explicitly; looking for the parser never fails otherwise *)
+Theorem C15_unsupported : forall name vs, get_parser name = Ok None ->
+  merge_channels name vs = Raise NotSupported.
+Proof. exact merge_unsupported. Qed.
+
+Theorem C15_get_parser_total : forall name, exists o, get_parser name = Ok o.
+Proof. exact get_parser_total. Qed.
+
+(* ---- non-vacuity ---------------------------------------------------------------- *)
+Definition s (l : list nat) : str := of_ascii l.
+Definition ent (k t : list nat) : centry := mkc CEntity (s k) (s t) [] 0.
+Definition ws (t : list nat) : centry := mkc CWhite [] (s t) [] 0.
+Definition com (t : list nat) : centry := mkc CComment (s t) (s t) [] 0.
+
+(* newer: a=1 \n b=2 \n      older: a=9 \n # c \n\n z=3 \n b=2 \n *)
+Definition ex_new := [ent [97] [97;61;49]; ws [10]; ent [98] [98;61;50]; ws [10]].
+Definition ex_old := [ent [97] [97;61;57]; ws [10]; com [35;32;99]; ws [10;10];
+                      ent [122] [122;61;51]; ws [10]; ent [98] [98;61;50]; ws [10]].
+
+Example C15_example_ukeys : Forall ukeys [ex_new; ex_old].
+Proof.
+  repeat constructor; cbn; intros H; repeat (destruct H as [H|H]; try discriminate); exact H.
+Qed.
+
+(* "a=1\n# c\n\nz=3\nb=2\n" *)
+Example C15_example_merge :
+  merge_channels (s [102;46;105;110;105]) [ex_new; ex_old] =
+  Ok (s [97;61;49;10; 35;32;99;10;10; 122;61;51;10; 98;61;50;10]).
 Proof. vm_compute. reflexivity. Qed.
+
+Example C15_example_parser :
+  get_parser (s [102;46;116;120;116]) = Ok None /\
+  get_parser (s [97;46;112;114;111;112;101;114;116;105;101;115]) = Ok (Some 2).
+Proof. vm_compute. split; reflexivity. Qed.
+
+(* known finding: an .ini section whose name is also a key — [a] / a=1 — loses the
+   section: the single version does not come back (the section and the entity share
+   the dict key) *)
+Definition ex_ini := [mkc COther (s [97]) (s [91;97;93]) [] 0; ws [10];
+                      ent [97] [97;61;49]; ws [10]].
+Theorem C15_section_collision_refuted :
+  exists name v, get_parser name = Ok (Some 3) /\
+    merge_channels name [v] <> Ok (concat (map c_text v)).
+Proof.
+  exists (s [102;46;105;110;105]), ex_ini. split; [vm_compute; reflexivity|].
+  vm_compute. discriminate.
+Qed.
